@@ -117,11 +117,12 @@ class Element:
         ei.facet_dofs = 0
         ei.edge_dofs = 0
 
+        # the components of the interior part are the interior parts of the
+        # components
         if hasattr(ei, 'elems'):
-            for i in range(len(ei.elems)):
-                ei.elems[i].nodal_dofs = 0
-                ei.elems[i].facet_dofs = 0
-                ei.elems[i].edge_dofs = 0
+            ei.elems = tuple(e.condensed()[0] for e in self.elems)
+        elif hasattr(ei, 'elem'):
+            ei.elem = self.elem.condensed()[0]
 
         def gbasis(obj,
                    mapping,
@@ -134,6 +135,13 @@ class Element:
                                tind)
 
         ei.gbasis = MethodType(gbasis, ei)
+
+        # the tables indexed in parallel with the basis functions
+        if hasattr(self, 'doflocs'):
+            ei.doflocs = self.doflocs[self._bfun_counts()[:3].sum():]
+        ei.dofnames = self.dofnames[(self.nodal_dofs
+                                     + self.facet_dofs
+                                     + self.edge_dofs):]
 
         return ei, eo
 
